@@ -36,6 +36,15 @@ func (s *Store) hook(op string) error {
 	return nil
 }
 
+// hookCtx: a read - the scheduling / fault point first, then what database/sql does with a context that is already done
+// (the statement is not run, the context's error is returned)
+func (s *Store) hookCtx(ctx context.Context, op string) error {
+	if err := s.hook(op); err != nil {
+		return err
+	}
+	return ctx.Err()
+}
+
 // Seed persists logs directly (setup; no hook).
 func (s *Store) Seed(logs ...*ledger.Log) {
 	for _, l := range logs {
@@ -211,21 +220,21 @@ func (s *Store) fold() *fold {
 }
 
 func (s *Store) GetBalance(ctx context.Context, address, asset string) (*big.Int, error) {
-	if err := s.hook("GetBalance " + address + " " + asset); err != nil {
+	if err := s.hookCtx(ctx, "GetBalance " + address + " " + asset); err != nil {
 		return nil, err
 	}
 	return s.fold().Balance(address, asset), nil
 }
 
 func (s *Store) GetAccount(ctx context.Context, address string) (*ledger.Account, error) {
-	if err := s.hook("GetAccount " + address); err != nil {
+	if err := s.hookCtx(ctx, "GetAccount " + address); err != nil {
 		return nil, err
 	}
 	return &ledger.Account{Address: address, Metadata: s.fold().AccountMeta(address)}, nil
 }
 
 func (s *Store) GetLastLog(ctx context.Context) (*ledger.ChainedLog, error) {
-	if err := s.hook("GetLastLog"); err != nil {
+	if err := s.hookCtx(ctx, "GetLastLog"); err != nil {
 		return nil, err
 	}
 	s.mu.Lock()
@@ -244,7 +253,7 @@ func (s *Store) GetLastLog(ctx context.Context) (*ledger.ChainedLog, error) {
 }
 
 func (s *Store) GetLastTransaction(ctx context.Context) (*ledger.ExpandedTransaction, error) {
-	if err := s.hook("GetLastTransaction"); err != nil {
+	if err := s.hookCtx(ctx, "GetLastTransaction"); err != nil {
 		return nil, err
 	}
 	f := s.fold()
@@ -261,7 +270,7 @@ func (s *Store) GetLastTransaction(ctx context.Context) (*ledger.ExpandedTransac
 }
 
 func (s *Store) ReadLogWithIdempotencyKey(ctx context.Context, key string) (*ledger.ChainedLog, error) {
-	if err := s.hook("ReadLogWithIdempotencyKey " + key); err != nil {
+	if err := s.hookCtx(ctx, "ReadLogWithIdempotencyKey " + key); err != nil {
 		return nil, err
 	}
 	s.mu.Lock()
@@ -280,7 +289,7 @@ func (s *Store) ReadLogWithIdempotencyKey(ctx context.Context, key string) (*led
 }
 
 func (s *Store) GetTransactionByReference(ctx context.Context, ref string) (*ledger.ExpandedTransaction, error) {
-	if err := s.hook("GetTransactionByReference " + ref); err != nil {
+	if err := s.hookCtx(ctx, "GetTransactionByReference " + ref); err != nil {
 		return nil, err
 	}
 	f := s.fold()
@@ -293,7 +302,7 @@ func (s *Store) GetTransactionByReference(ctx context.Context, ref string) (*led
 }
 
 func (s *Store) GetTransaction(ctx context.Context, txID *big.Int) (*ledger.Transaction, error) {
-	if err := s.hook("GetTransaction " + txID.String()); err != nil {
+	if err := s.hookCtx(ctx, "GetTransaction " + txID.String()); err != nil {
 		return nil, err
 	}
 	f := s.fold()
